@@ -292,6 +292,14 @@ template<class T, int D, class P, bool Full> struct PH : Any {
 			if(kind == "reintn_I") { return rewrap<int, true>(std::forward<W>(w).template reinterpret_array_cast<int>(a.at(0))); }
 			if(kind == "reintn_D") { return rewrap<double, true>(std::forward<W>(w).template reinterpret_array_cast<double>(a.at(0))); }
 			if(kind == "reintn_R") { return rewrap<R16, false>(std::forward<W>(w).template reinterpret_array_cast<R16>(a.at(0))); }
+			// static_array_cast<S const>: D > 1 has const& (:1693), & (:1711) and && (:1706) overloads, D = 1 one const member (:3228)
+			if(kind == "static") { return rewrap<S, true>(std::forward<W>(w).template static_array_cast<S const>()); }
+			// as_const() / const_array_cast() are const members of the D > 1 class only (:1802, :1810): one overload each,
+			// reached here through every receiver kind
+			if constexpr(D >= 2) {
+				if(kind == "asconst") { return rewrap<S, true>(std::forward<W>(w).as_const()); }
+				if(kind == "constcast") { return rewrap<S, true>(std::forward<W>(w).as_const().template const_array_cast<S>()); }
+			}
 			if(kind == "tval") {
 				auto t = std::forward<W>(w).element_transformed(f_val{});
 				using TP = typename decltype(t)::element_ptr;
@@ -302,6 +310,9 @@ template<class T, int D, class P, bool Full> struct PH : Any {
 			if(kind == "reint_C") { return rewrap<CD, false>(std::forward<W>(w).template reinterpret_array_cast<CD>()); }
 			if(kind == "reint_D") { return rewrap<double, true>(std::forward<W>(w).template reinterpret_array_cast<double>()); }
 			if(kind == "reintn_D") { return rewrap<double, true>(std::forward<W>(w).template reinterpret_array_cast<double>(a.at(0))); }
+			if constexpr(D >= 2) {
+				if(kind == "asconst") { return rewrap<Z, true>(std::forward<W>(w).as_const()); }
+			}
 		}
 		if constexpr(std::is_pointer_v<P> && std::is_same_v<T, int>) {
 			// to a LARGER element: strides are divided, legal only when every stride*4 is a multiple of 8
@@ -319,12 +330,6 @@ template<class T, int D, class P, bool Full> struct PH : Any {
 	template<class W> static std::unique_ptr<Any> project_mut(W&& w, std::string const& kind, std::vector<idx_t> const& a) {
 		constexpr bool raw = std::is_pointer_v<P>;
 		if constexpr(raw && std::is_same_v<T, S>) {
-			if(kind == "static") { return rewrap<S, true>(std::forward<W>(w).template static_array_cast<S const>()); }
-			// as_const() / const_array_cast() exist only in the D > 1 class at the pinned commit
-			if constexpr(D >= 2) {
-				if(kind == "asconst") { return rewrap<S, true>(std::forward<W>(w).as_const()); }
-				if(kind == "constcast") { return rewrap<S, true>(std::forward<W>(w).as_const().template const_array_cast<S>()); }
-			}
 			if(kind == "tmem") {
 				auto t = std::forward<W>(w).element_transformed(&S::b);
 				using TP = typename decltype(t)::element_ptr;
@@ -341,9 +346,6 @@ template<class T, int D, class P, bool Full> struct PH : Any {
 			if(kind == "zimag") { return rewrap<double, true>(multi::blas::imag(std::forward<W>(w))); }        // :53-59
 			if(kind == "zdoubled") {                                                                           // :61-65
 				if constexpr(D + 1 <= C12_MAXD) { return rewrap<double, true>(multi::blas::real_doubled(std::forward<W>(w))); } else { throw unsupported("rank"); }
-			}
-			if constexpr(D >= 2) {
-				if(kind == "asconst") { return rewrap<Z, true>(std::forward<W>(w).as_const()); }
 			}
 		}
 		return project_common(std::forward<W>(w), kind, a);
